@@ -82,6 +82,7 @@ def pline (ps : PState) (line : String) : PState :=
       else { ps with err := some s!"bad mode {mode}" }
   | ["file", _] => ps
   | "pre" :: _ => ps
+  | "again" :: _ => ps
   | "fixture" :: _ => ps        -- scripted suite fixtures: the model treats suite fixtures as logging only
   | ["kill", point, occ, how, test] => { ps with kill := some { point := point, occ := occ.toNat?.getD 1, how := how, test := test } }
   | ["begin", name, su, td] => { ps with stack := { name := name, su := su = "1", td := td = "1" } :: ps.stack }
